@@ -34,6 +34,18 @@ OPERATOR_BIN = {"operator.and_": ast.BitAnd, "operator.or_": ast.BitOr, "operato
 OPERATOR_CMP = {"operator.lt": ast.Lt, "operator.le": ast.LtE, "operator.gt": ast.Gt, "operator.ge": ast.GtE, "operator.eq": ast.Eq, "operator.ne": ast.NotEq}
 
 
+def _is_generator(fnode):
+    todo = list(fnode.body)
+    while todo:
+        n = todo.pop()
+        if isinstance(n, (ast.Yield, ast.YieldFrom)):
+            return True
+        if isinstance(n, (ast.FunctionDef, ast.AsyncFunctionDef, ast.Lambda, ast.ClassDef)):
+            continue
+        todo.extend(ast.iter_child_nodes(n))
+    return False
+
+
 class Raised(RaisedInModel):
     """An exception raised by the interpreted code: class name + node."""
 
@@ -628,7 +640,25 @@ class ModelEval(Evaluator):
         for n_ in names:
             if n_ not in env:
                 raise Raised("TypeError", node, "%s() missing argument %s" % (callee.name, n_))
+        if _is_generator(callee.node):
+            # a generator function: run eagerly, the values it yields form the (list) result.  Effects of the body happen before the
+            # consumer's; the yielded sequence is the same.
+            sub.yielded = []
+            sub.run_body(callee.node.body)
+            return sub.yielded
         return sub.run_body(callee.node.body)
+
+    def ev_Yield(self, node):
+        if not hasattr(self, "yielded"):
+            raise Unsupported("yield outside a generator function")
+        self.yielded.append(self.ev(node.value) if node.value is not None else None)
+        return None
+
+    def ev_YieldFrom(self, node):
+        if not hasattr(self, "yielded"):
+            raise Unsupported("yield from outside a generator function")
+        self.yielded.extend(self.iterate(self.ev(node.value), node))
+        return None
 
     # ------------------------------------------------------------------ statements
     def exec_stmt(self, st):
